@@ -337,6 +337,10 @@ def default_like(ex, old, ty=None):
         return False
     if t is Adt and old.ty == "Option":
         return NONE
+    if t is Adt:
+        f = ex.prog.by_trait.get(("Default", old.ty, "default"))
+        if f is not None:
+            return ex.exec_fn(f, [])  # `impl Default` defined in the crate (e.g. Meta::Skip)
     raise Unmodelled("Default for %r" % (old,))
 
 
@@ -512,9 +516,11 @@ def m_vec_extend(ex, c, args):
         x, it = it_next(ex, it)
         if x is None:
             break
-        if type(x) is Ref and ("&" in (c.generics or "") or True):
-            # extend(&Vec<char>) copies the elements
-            x = rd(x) if _is_copy_val(rd(x)) else x
+        if type(x) is Ref:
+            # `impl Extend<&'a T> for Vec<T> where T: Copy` copies the elements
+            ta = getattr(c, "trait_args", None)
+            if (ta or "").startswith("&") or _is_copy_val(rd(x)):
+                x = rd(x)
         out.append(x)
     wr(args[0], Seq(tuple(out)))
     return UNIT
@@ -1170,6 +1176,9 @@ def to_iter(ex, v):
         if type(t) is PyIter:
             return PyIter("byref", v)
         if type(t) is Adt:
+            f = ex.prog.by_trait.get(("IntoIterator", "&" + t.ty, "into_iter"))
+            if f is not None:
+                return ex.exec_fn(f, [v])  # `impl IntoIterator for &T` defined in the crate
             return PyIter("byref", v)
         raise Unmodelled("into_iter of reference to %r" % (t,))
     if type(v) is Seq:
@@ -1780,6 +1789,16 @@ def collect_into(ex, items, tgt):
     raise Unmodelled("collect into " + tgt)
 
 
+@model("slice::join", "Vec::join")
+def m_slice_join(ex, c, args):
+    v = rda(args[0])
+    sep = rda(args[1])
+    parts = [rda(x) for x in v.items]
+    if isinstance(sep, str) and all(isinstance(x, str) for x in parts):
+        return sep.join(parts)
+    raise Unmodelled("join of non-concrete strings")
+
+
 @model("Iterator::size_hint")
 def m_size_hint(ex, c, args):
     return (0, NONE)
@@ -1858,7 +1877,7 @@ def m_windows(ex, c, args):
     raise Unmodelled(c.key)
 
 
-@model("slice::concat", "slice::join")
+@model("slice::concat")
 def m_concat(ex, c, args):
     raise Unmodelled(c.key)
 
